@@ -1,7 +1,7 @@
 #!/bin/bash
 # confirm_mutant.sh <ID> <mN>: in the scratch worktree /tmp/mut-<ID>: patch applies, suite passes with the patch,
 # demo fails with the patch and passes without.  Writes /tmp/mut-<ID>-out/<mN>/confirm.json
-id=$1; m=$2; wt=/tmp/mut-$id; out=/tmp/mut-$id-out/$m
+id=$1; m=$2; pre=${MUTPREFIX:-mut}; wt=/tmp/$pre-$id; out=/tmp/$pre-$id-out/$m
 export CARGO_NET_OFFLINE=true
 cd $wt || exit 2
 git checkout -q -- . ; git clean -qfd -e target
